@@ -5,11 +5,11 @@ import PySMT.Proofs.C07Read3
 namespace PySMT.Printer
 open PySMT.Std PySMT.Sexp
 
-theorem isRealConst_unfoldAV : ∀ (a : Term), isRealConst (unfoldAV a) = isRealConst a
+theorem isRealConst_unfoldAV (srt : Bool) : ∀ (a : Term), isRealConst (unfoldAVw srt a) = isRealConst a
   | .node op args p => by
     by_cases hop : op = .arrayValue
     · subst hop
-      unfold unfoldAV
+      unfold unfoldAVw
       dsimp only
       split
       · next idx _ rest ds restS _ =>
@@ -21,18 +21,19 @@ theorem isRealConst_unfoldAV : ∀ (a : Term), isRealConst (unfoldAV a) = isReal
           | cons e l ih => intro acc _; exact ih _ rfl
         rw [this _ _ rfl]; rfl
       · rfl
-    · rw [unfoldAV_plain _ _ _ hop]
+    · rw [unfoldAV_plain srt _ _ _ hop]
       cases args with
       | nil => rfl
       | cons a as => simp [isRealConst]
 
 section
-variable (sp : Spell) (hsp : SpellStd sp) (env : SEnv) (scope : List Sym) (hsc : ScopeOK scope)
+variable (sp : Spell) (hsp : SpellStd sp) (env : SEnv) (sc : List Binding) (hsc : ThFree sc) (srt : Bool)
+  (toS : Term → Sexp) (scope0 : List Sym)
 include hsp hsc
 
 theorem reads_minus (p : Payload) (args : List Term) (τ : Ty)
-    (hargs : ∀ a ∈ args, Reads sp env scope a) (hty : (Term.node .minus args p).typeOf = some τ)
-    (hS : stdTy .minus p (args.map tyD) = some τ) : Reads sp env scope (.node .minus args p) := by
+    (hargs : ∀ a ∈ args, Reads env sc srt toS a) (hty : (Term.node .minus args p).typeOf = some τ)
+    (hS : stdTy .minus p (args.map tyD) = some τ) : NodeReads sp env sc srt toS .minus args p := by
   have key : ∃ t, (t = .int ∨ t = .real) ∧ p = .none ∧ τ = t ∧ args.map tyD = [t, t] := by
     simp only [stdTy] at hS
     split at hS
@@ -46,15 +47,15 @@ theorem reads_minus (p : Payload) (args : List Term) (τ : Ty)
       · simp at hS
   obtain ⟨t, ht, rfl, rfl, hts⟩ := key
   obtain ⟨a, b, rfl, ha, hb⟩ := map_eq_two hts
-  apply reads_simple sp env scope hsc .minus .none [a, b] "-" (by decide)
+  apply reads_simple sp env sc hsc srt toS .minus .none [a, b] "-" (by decide)
     (fun as => by simp [nodeSexp, walkKey, spell sp hsp "walk_minus" "-" (by decide)])
-    (unfoldAV_plain _ _ _ (by decide)) hargs (by simp) _ hty
+    (unfoldAV_plain srt _ _ _ (by decide)) hargs (by simp) _ hty
   simp only [List.map, U, ha, hb]; exact ap_minus _ _ _ ht
 
 theorem reads_div (p : Payload) (args : List Term) (τ : Ty)
-    (hargs : ∀ a ∈ args, Reads sp env scope a) (hty : (Term.node .div args p).typeOf = some τ)
-    (hS : stdTy .div p (args.map tyD) = some τ) (hok : nodeOK env scope .div p args = true) :
-    Reads sp env scope (.node .div args p) := by
+    (hargs : ∀ a ∈ args, Reads env sc srt toS a) (hty : (Term.node .div args p).typeOf = some τ)
+    (hS : stdTy .div p (args.map tyD) = some τ) (hok : nodeOK env scope0 .div p args = true) :
+    NodeReads sp env sc srt toS .div args p := by
   simp only [stdTy] at hS
   split at hS <;> simp at hS
   rename_i hc
@@ -62,9 +63,9 @@ theorem reads_div (p : Payload) (args : List Term) (τ : Ty)
   obtain ⟨rfl, hts⟩ := hc
   subst hS
   obtain ⟨a, b, rfl, ha, hb⟩ := map_eq_two hts
-  apply reads_simple sp env scope hsc .div .none [a, b] "/" (by decide)
+  apply reads_simple sp env sc hsc srt toS .div .none [a, b] "/" (by decide)
     (fun as => by simp [nodeSexp, walkKey, spell sp hsp "walk_div" "/" (by decide)])
-    (unfoldAV_plain _ _ _ (by decide)) hargs (by simp) _ hty
+    (unfoldAV_plain srt _ _ _ (by decide)) hargs (by simp) _ hty
   simp only [List.map, U, ha, hb]
   apply ap_div
   rw [isRealConst_unfoldAV, isRealConst_unfoldAV]
@@ -75,8 +76,8 @@ theorem reads_div (p : Payload) (args : List Term) (τ : Ty)
   · rw [h2] at h; simp [h3] at h
 
 theorem reads_rel (op : Op) (hop : op = .le ∨ op = .lt) (p : Payload) (args : List Term) (τ : Ty)
-    (hargs : ∀ a ∈ args, Reads sp env scope a) (hty : (Term.node op args p).typeOf = some τ)
-    (hS : stdTy op p (args.map tyD) = some τ) : Reads sp env scope (.node op args p) := by
+    (hargs : ∀ a ∈ args, Reads env sc srt toS a) (hty : (Term.node op args p).typeOf = some τ)
+    (hS : stdTy op p (args.map tyD) = some τ) : NodeReads sp env sc srt toS op args p := by
   have key : ∃ t, (t = .int ∨ t = .real) ∧ p = .none ∧ τ = .bool ∧ args.map tyD = [t, t] := by
     rcases hop with rfl | rfl <;>
     · simp only [stdTy] at hS
@@ -89,18 +90,18 @@ theorem reads_rel (op : Op) (hop : op = .le ∨ op = .lt) (p : Payload) (args : 
   obtain ⟨t, ht, rfl, rfl, hts⟩ := key
   obtain ⟨a, b, rfl, ha, hb⟩ := map_eq_two hts
   rcases hop with rfl | rfl
-  · apply reads_simple sp env scope hsc .le .none [a, b] "<=" (by decide)
+  · apply reads_simple sp env sc hsc srt toS .le .none [a, b] "<=" (by decide)
       (fun as => by simp [nodeSexp, walkKey, spell sp hsp "walk_le" "<=" (by decide)])
-      (unfoldAV_plain _ _ _ (by decide)) hargs (by simp) _ hty
+      (unfoldAV_plain srt _ _ _ (by decide)) hargs (by simp) _ hty
     simp only [List.map, U, ha, hb]; exact ap_le _ _ _ ht
-  · apply reads_simple sp env scope hsc .lt .none [a, b] "<" (by decide)
+  · apply reads_simple sp env sc hsc srt toS .lt .none [a, b] "<" (by decide)
       (fun as => by simp [nodeSexp, walkKey, spell sp hsp "walk_lt" "<" (by decide)])
-      (unfoldAV_plain _ _ _ (by decide)) hargs (by simp) _ hty
+      (unfoldAV_plain srt _ _ _ (by decide)) hargs (by simp) _ hty
     simp only [List.map, U, ha, hb]; exact ap_lt _ _ _ ht
 
 theorem reads_equals (p : Payload) (args : List Term) (τ : Ty)
-    (hargs : ∀ a ∈ args, Reads sp env scope a) (hty : (Term.node .equals args p).typeOf = some τ)
-    (hS : stdTy .equals p (args.map tyD) = some τ) : Reads sp env scope (.node .equals args p) := by
+    (hargs : ∀ a ∈ args, Reads env sc srt toS a) (hty : (Term.node .equals args p).typeOf = some τ)
+    (hS : stdTy .equals p (args.map tyD) = some τ) : NodeReads sp env sc srt toS .equals args p := by
   simp only [stdTy] at hS
   split at hS
   · next x y hts =>
@@ -110,15 +111,15 @@ theorem reads_equals (p : Payload) (args : List Term) (τ : Ty)
     obtain ⟨rfl, hnb⟩ := hc
     subst hS
     obtain ⟨a, b, rfl, ha, hb⟩ := map_eq_two hts
-    apply reads_simple sp env scope hsc .equals .none [a, b] "=" (by decide)
+    apply reads_simple sp env sc hsc srt toS .equals .none [a, b] "=" (by decide)
       (fun as => by simp [nodeSexp, walkKey, spell sp hsp "walk_equals" "=" (by decide)])
-      (unfoldAV_plain _ _ _ (by decide)) hargs (by simp) _ hty
+      (unfoldAV_plain srt _ _ _ (by decide)) hargs (by simp) _ hty
     simp only [List.map, U, ha, hb]; exact ap_equals _ _ _ hnb
   · simp at hS
 
 theorem reads_ite (p : Payload) (args : List Term) (τ : Ty)
-    (hargs : ∀ a ∈ args, Reads sp env scope a) (hty : (Term.node .ite args p).typeOf = some τ)
-    (hS : stdTy .ite p (args.map tyD) = some τ) : Reads sp env scope (.node .ite args p) := by
+    (hargs : ∀ a ∈ args, Reads env sc srt toS a) (hty : (Term.node .ite args p).typeOf = some τ)
+    (hS : stdTy .ite p (args.map tyD) = some τ) : NodeReads sp env sc srt toS .ite args p := by
   simp only [stdTy] at hS
   split at hS
   · next x y hts =>
@@ -128,15 +129,15 @@ theorem reads_ite (p : Payload) (args : List Term) (τ : Ty)
     subst hc
     subst hS
     obtain ⟨c, a, b, rfl, hc', ha, hb⟩ := map_eq_three hts
-    apply reads_simple sp env scope hsc .ite .none [c, a, b] "ite" (by decide)
+    apply reads_simple sp env sc hsc srt toS .ite .none [c, a, b] "ite" (by decide)
       (fun as => by simp [nodeSexp, walkKey, spell sp hsp "walk_ite" "ite" (by decide)])
-      (unfoldAV_plain _ _ _ (by decide)) hargs (by simp) _ hty
+      (unfoldAV_plain srt _ _ _ (by decide)) hargs (by simp) _ hty
     simp only [List.map, U, ha, hb, hc']; exact ap_ite _ _ _ _
   · simp at hS
 
 theorem reads_toReal (p : Payload) (args : List Term) (τ : Ty)
-    (hargs : ∀ a ∈ args, Reads sp env scope a) (hty : (Term.node .toReal args p).typeOf = some τ)
-    (hS : stdTy .toReal p (args.map tyD) = some τ) : Reads sp env scope (.node .toReal args p) := by
+    (hargs : ∀ a ∈ args, Reads env sc srt toS a) (hty : (Term.node .toReal args p).typeOf = some τ)
+    (hS : stdTy .toReal p (args.map tyD) = some τ) : NodeReads sp env sc srt toS .toReal args p := by
   simp only [stdTy] at hS
   split at hS <;> simp at hS
   rename_i hc
@@ -144,9 +145,9 @@ theorem reads_toReal (p : Payload) (args : List Term) (τ : Ty)
   obtain ⟨rfl, hts⟩ := hc
   subst hS
   obtain ⟨a, rfl, ha⟩ := map_eq_one hts
-  apply reads_simple sp env scope hsc .toReal .none [a] "to_real" (by decide)
+  apply reads_simple sp env sc hsc srt toS .toReal .none [a] "to_real" (by decide)
     (fun as => by simp [nodeSexp, walkKey, spell sp hsp "walk_toreal" "to_real" (by decide)])
-    (unfoldAV_plain _ _ _ (by decide)) hargs (by simp) _ hty
+    (unfoldAV_plain srt _ _ _ (by decide)) hargs (by simp) _ hty
   simp only [List.map, U, ha]; exact ap_toReal _
 
 end
